@@ -71,7 +71,7 @@ def run_image(case, ctx):
     D = int(rng.choice([1, 2, 2, 3]))
     if op == "average_pool" and D == 1:
         D = 2
-    patch = 2
+    patch = int(rng.choice([2, 2, 3]))
     sp = tuple(int(v) for v in rng.choice([1, 2, 3, 4], size=D, replace=(D > 3)))
     if op == "average_pool":
         sp = tuple(patch * int(v) for v in rng.choice([1, 2, 3], size=D, replace=True))
@@ -198,6 +198,18 @@ def run_image(case, ctx):
                         viols.append(viol("batch-get-component-crosstalk", f"batch_get_component({sl})[{b0}] != get_component({sl}) on entry {b0}; {key}"))
                         break
         elif op == "to_images":
+            if n_lead >= 1:  # selecting one entry along the first axis is a per-image operation too
+                L0 = next(iter(blocks.values())).shape[0]
+                if len({v.shape[0] for v in blocks.values()}) == 1:
+                    j = int(rng.integers(L0))
+                    for keep in (True, False):
+                        one = mi.get_one(j, keepdims=keep)
+                        for t, v in blocks.items():
+                            want = v[j : j + 1] if keep else v[j]
+                            if t not in one or np.asarray(one[t]).shape != want.shape or not np.array_equal(np.asarray(one[t]), want):
+                                viols.append(viol("get-one-crosstalk", f"get_one({j}, keepdims={keep}) block {t} is not entry {j}; {key}"))
+                                break
+                    evals += 2
             imgs = mi.to_images()
             evals += 1
             want = []
